@@ -74,6 +74,22 @@ def Server.serveAuth (s : Server) (sess : Sess) (keep : Nat → Bool) : Nat → 
         | [] => [.ran cmd, .closed]           -- peer sent nothing more: clean end
         | next :: rest' => .ran cmd :: s.serveAuth sess keep next rest'
 
+/-- the dispatch loop of ONE connection during which the server is reconfigured: the first `n`
+    commands arrive under `s1`, the remaining ones under `s2` (the session is the connection's and
+    does not change).  `sessionSatisfies` is evaluated per command, when it arrives. -/
+def serveAuthSw (s1 s2 : Server) (sess : Sess) (keep : Nat → Bool) : Nat → Nat → List Nat → List Ev
+  | 0, cmd, rest => s2.serveAuth sess keep cmd rest
+  | n+1, cmd, rest =>
+    match s1.lookup cmd with
+    | none => [.closed]
+    | some h =>
+      if h.raw then [.closed]
+      else if !s1.satisfies cmd sess then [.closed]
+      else if !keep cmd then [.ran cmd, .closed]
+      else match rest with
+        | [] => [.ran cmd, .closed]
+        | next :: rest' => .ran cmd :: serveAuthSw s1 s2 sess keep n next rest'
+
 /-- the raw (no-handshake) path -/
 def Server.serveRaw (s : Server) (cmd : Nat) : List Ev :=
   match s.lookup cmd with
